@@ -98,7 +98,7 @@ func (r *storeRun) open() error {
 	if err != nil {
 		return err
 	}
-	if err := st.Start(context.Background()); err != nil {
+	if err := func() error { sc, end := startCtx(); defer end(); return st.Start(sc) }(); err != nil {
 		return err
 	}
 	r.st = st
